@@ -50,6 +50,10 @@ type receiver struct {
 
 // 初始化接收器
 func newReceiver(ep *endpoint, irs seqnum.Value, rcvWnd seqnum.Size, rcvWndScale uint8) *receiver {
+	// No more than 0xffff<<scale can be announced in the 16-bit window field.
+	if max := seqnum.Size(0xffff) << rcvWndScale; rcvWnd > max {
+		rcvWnd = max
+	}
 	return &receiver{
 		ep:             ep,
 		rcvNxt:         irs + 1,
@@ -79,6 +83,11 @@ func (r *receiver) acceptable(segSeq seqnum.Value, segLen seqnum.Size) bool {
 func (r *receiver) getSendParams() (rcvNxt seqnum.Value, rcvWnd seqnum.Size) {
 	// Calculate the window size based on the current buffer size.
 	n := r.ep.receiveBufferAvailable()
+	// The window field has 16 bits: no more than 0xffff<<scale can be
+	// announced, so that is also the most the peer may be held to.
+	if max := 0xffff << r.rcvWndScale; n > max {
+		n = max
+	}
 	acc := r.rcvNxt.Add(seqnum.Size(n))
 	if r.rcvAcc.LessThan(acc) {
 		r.rcvAcc = acc
